@@ -5,6 +5,7 @@ import (
 	"encoding/json"
 	"fmt"
 	"os"
+	"path/filepath"
 	"runtime"
 	"strings"
 	"sync"
@@ -347,6 +348,11 @@ func runKeyStorePlan(plan [][]ksOp) (string, map[string]int) {
 		}
 		paths[a] = p
 	}
+	// a file outside the store directory that holds no key (the store lists its directory by address prefix)
+	gdir := caseDir("c20-ks-garbage-")
+	defer os.RemoveAll(gdir)
+	garbage := filepath.Join(gdir, "garbage.json")
+	_ = os.WriteFile(garbage, []byte("{\"crypto\": 1, \"address\""), 0o600)
 	var completed atomic.Int64
 	var failure atomic.Value
 	stats := map[string]int{}
@@ -365,6 +371,27 @@ func runKeyStorePlan(plan [][]ksOp) (string, map[string]int) {
 					got, err := ks.Load(paths[o.Addr], "pw")
 					if err != nil || !bytes.Equal(got, key(o.Addr)) {
 						failure.CompareAndSwap(nil, fmt.Sprintf("Load of a saved key returned %x, %v", got, err))
+					}
+				case "load-missing":
+					// operations that must fail cleanly (and leave the store usable)
+					if got, err := ks.Load(filepath.Join(dir, fmt.Sprintf("no-such-file-%d", o.Addr)), "pw"); err == nil {
+						failure.CompareAndSwap(nil, fmt.Sprintf("Load of a missing file returned %x without an error", got))
+					}
+				case "load-dir":
+					if got, err := ks.Load(dir, "pw"); err == nil {
+						failure.CompareAndSwap(nil, fmt.Sprintf("Load of a directory returned %x without an error", got))
+					}
+				case "load-garbage":
+					if got, err := ks.Load(garbage, "pw"); err == nil {
+						failure.CompareAndSwap(nil, fmt.Sprintf("Load of a file that holds no key returned %x without an error", got))
+					}
+				case "load-wrongpw":
+					if got, err := ks.Load(paths[o.Addr], "not-the-password"); err == nil {
+						failure.CompareAndSwap(nil, fmt.Sprintf("Load with a wrong password returned %x without an error", got))
+					}
+				case "loadbyaddr-unknown":
+					if got, err := ks.LoadByAddress(fmt.Sprintf("stranger%d", o.Addr), "pw"); err == nil {
+						failure.CompareAndSwap(nil, fmt.Sprintf("LoadByAddress of an unknown address returned %x without an error", got))
 					}
 				default:
 					got, err := ks.LoadByAddress(addr(o.Addr), "pw")
@@ -436,7 +463,7 @@ func TestC20KeyStore(t *testing.T) {
 		for gi := range plan {
 			n := 3 + rapid.IntRange(0, 5).Draw(rt, "ops")
 			for i := 0; i < n; i++ {
-				k := rapid.SampledFrom([]string{"save", "load", "loadbyaddr", "loadbyaddr", "loadbyaddr"}).Draw(rt, "op")
+				k := rapid.SampledFrom([]string{"save", "save", "load", "loadbyaddr", "loadbyaddr", "loadbyaddr", "load-missing", "load-dir", "load-garbage", "load-wrongpw", "loadbyaddr-unknown"}).Draw(rt, "op")
 				if k == "save" {
 					saves++
 				}
